@@ -591,7 +591,7 @@ def coverage(spec, G):
 
 
 # ================================================================================================
-# Stage 2: multi-product networks with bills of materials (oracle only; the Coq model does not cover them)
+# Stage 2: multi-product networks with bills of materials (generator, implementation adapter, monitors; the Stage-2 Coq model is py/sim2lib.py + coq/Sim2)
 
 def gen_multi(rng, nmax=5, tmax=12):
     """2- and 3-level networks, 1-3 products per node, BOM numbers 1..3, raw materials shared by several products, products handled by
@@ -1290,7 +1290,7 @@ def run_property(chk, pid, n_quick=200, n_thorough=2000, m_quick=40, m_thorough=
     chk.trusted += ['model Sim/Model.v is hand-written; tied to /repo by exact comparison of the observables of %s (%s) on every generated single-product case'
                     % (pid, 'every extracted field' if FIELDS[pid] is None else ', '.join(FIELDS[pid])),
                     'property monitors py/simmon.py (independent re-computation from the public state variables in exact rationals)']
-    chk.assume += ['single-product (dummy-product) networks only for the model and theorems; multi-product networks are covered by the monitors alone',
+    chk.assume += ['Stage 1 (single-product networks, coq/Sim) is compared exactly; Stage 2 (multi-product networks with bills of materials, coq/Sim2) at 1e-9 with threshold ties skipped; echelon policies, cost functions and order_quantity_override in multi-product networks are covered by the monitors alone',
                    'floating-point rounding is not modelled: generated quantities are integers and rates are multiples of 1/4, so every float operation of the implementation is exact '
                    '(fill rate: correctly rounded quotient compared as binary64)']
     chk.proof()
